@@ -115,8 +115,9 @@ class Interp:
             if isinstance(e.slice, ast.Slice):
                 lo = self.ev(e.slice.lower) if e.slice.lower is not None else None
                 hi = self.ev(e.slice.upper) if e.slice.upper is not None else None
+                st = self.ev(e.slice.step) if e.slice.step is not None else None
                 if isinstance(base, (tuple, list)):
-                    return base[lo:hi]
+                    return base[lo:hi:st]
                 raise DTop(f"slice of {type(base).__name__}")
             idx = self.ev(e.slice)
             if isinstance(base, dict):
@@ -237,6 +238,19 @@ class ModelInterp(Interp):
             pass
         if isinstance(e, ast.Name) and e.id in self.names:
             return self.names[e.id]
+        if isinstance(e, ast.Attribute):
+            # a model object is a dict of its attribute values
+            try:
+                base = self.ev(e.value)
+            except DTop:
+                base = None
+            if isinstance(base, dict) and ("." + e.attr) in base:
+                return base["." + e.attr]
+        if isinstance(e, ast.UnaryOp) and isinstance(e.op, ast.USub):
+            v = self.ev(e.operand)
+            if isinstance(v, (int, float)) and not isinstance(v, bool):
+                return -v
+            raise DTop("negation")
         if isinstance(e, (ast.GeneratorExp, ast.ListComp)):
             return self._comp(e)
         if isinstance(e, ast.DictComp):
@@ -329,6 +343,10 @@ class ModelInterp(Interp):
                 raise DTop("isinstance " + tname)
             if f.id in ("zip",):
                 return list(zip(*args))
+            if f.id == "range" and all(isinstance(a, int) for a in args):
+                return list(range(*args))
+            if f.id == "reversed" and isinstance(args[0], (tuple, list)):
+                return list(reversed(args[0]))
             if f.id == "enumerate":
                 return list(enumerate(args[0]))
             if f.id in ("tuple", "list"):
